@@ -874,3 +874,38 @@ def check_separators(ctx):
     ctx.ob('cliques-of-triangulation', mc, r1[-1] if r1 else mc.node, pre,
            'maximal_cliques enumerates the nodes of the tree in depth-first preorder (parents before children: GraphicalModel.mle relies on it)%s'
            % ('' if pre else '; `%s` lists them in insertion order' % rt))
+    # ---- neighbors(): one entry for EVERY maximal clique (a one-clique tree has no edge, but its clique still has an - empty - entry) -------------
+    nsrc = ctx.repo.func(JT, 'JunctionTree.neighbors')
+    nrets = [r for r in walk_shallow(nsrc.node) if isinstance(r, ast.Return) and r.value is not None]
+    if len(nrets) != 1:
+        raise AnalysisError('JunctionTree.neighbors: expected one return')
+    v = nrets[0].value
+    ALL = ('self.maximal_cliques()', 'self.tree.nodes()', 'self.tree.nodes', 'self.tree')
+    per_clique = isinstance(v, ast.DictComp) and len(v.generators) == 1 and not v.generators[0].ifs and U(v.generators[0].iter) in ALL \
+        and U(v.key) == U(v.generators[0].target) and U(v.value).replace(' ', '') in ('set(self.tree.neighbors(%s))' % U(v.key), 'set(self.tree[%s])' % U(v.key),
+                                                                                     'set(self.tree.adj[%s])' % U(v.key))
+    if per_clique:
+        ctx.ob('neighbors-complete', nb, nrets[0], True, 'neighbors() has one entry per maximal clique, holding its tree neighbours')
+    elif isinstance(v, ast.Name):
+        inits = [a.value for a in walk_shallow(nsrc.node) if isinstance(a, ast.Assign) and len(a.targets) == 1 and U(a.targets[0]) == v.id]
+        edge_loops = [l for l in walk_shallow(nsrc.node) if isinstance(l, ast.For) and U(l.iter) in ('self.tree.edges()', 'self.tree.edges')]
+        if len(inits) != 1 or len(edge_loops) != 1:
+            raise AnalysisError('JunctionTree.neighbors: table `%s` built in no recognised form' % v.id)
+        i0 = inits[0]
+        seeded = isinstance(i0, ast.DictComp) and len(i0.generators) == 1 and not i0.generators[0].ifs and U(i0.generators[0].iter) in ALL \
+            and U(i0.key) == U(i0.generators[0].target) and U(i0.value) == 'set()'
+        empty = U(i0).replace(' ', '') in ('{}', 'dict()', 'defaultdict(set)', 'collections.defaultdict(set)')
+        if not seeded and not empty:
+            raise AnalysisError('JunctionTree.neighbors: table starts as `%s`, which is in no recognised form' % U(i0)[:60])
+        a_, b_ = [U(x) for x in edge_loops[0].target.elts] if isinstance(edge_loops[0].target, ast.Tuple) and len(edge_loops[0].target.elts) == 2 else (None, None)
+        body_t = {U(x).replace(' ', '') for x in edge_loops[0].body}
+        fills = a_ is not None and (({'%s[%s].add(%s)' % (v.id, a_, b_), '%s[%s].add(%s)' % (v.id, b_, a_)} <= body_t) or
+                                    ({'%s.setdefault(%s,set()).add(%s)' % (v.id, a_, b_), '%s.setdefault(%s,set()).add(%s)' % (v.id, b_, a_)} <= body_t))
+        if not fills:
+            raise AnalysisError('JunctionTree.neighbors: the loop over the tree edges fills `%s` in no recognised form' % v.id)
+        ctx.ob('neighbors-complete', nb, nrets[0], seeded, 'neighbors() has one entry per maximal clique; the table %s' % (
+            'is pre-seeded over `%s` and filled from the tree edges' % U(i0.generators[0].iter) if seeded else
+            'grows from the tree EDGES only: a tree of one clique has no edge, its clique gets no entry at all (models over one complete clique: a '
+            'single attribute, one clique covering the domain, nested cliques)'), construct='entries of neighbors()')
+    else:
+        raise AnalysisError('JunctionTree.neighbors: returns `%s`, which is in no recognised form' % U(v)[:60])
